@@ -874,7 +874,7 @@ func anchor(computer *ComputedStyle, _ pr.KnownProp, _value pr.CssProperty) pr.C
 func link(computer *ComputedStyle, _ pr.KnownProp, _value pr.CssProperty) pr.CssProperty {
 	switch value := _value.(type) {
 	case pr.NamedString:
-		if value.String == "none" {
+		if value.Name == "none" {
 			return pr.NamedString{}
 		} else {
 			return value
